@@ -224,7 +224,7 @@ theorem getDeclRev_limit (ops : List Op) (name : String) (limit : Ns) (l : List 
     · have hs' : ¬ (limit ≠ [] ∧ limit <+: (x :: rest).reverse) := fun h => hs ((prefixLst_iff _ _).2 h)
       have hg : realDeclIn ops name limit (x :: rest).reverse = none := by
         unfold realDeclIn; rw [if_neg hs']
-      simp only [hs, ↓reduceIte]
+      simp only [hs]
       rw [hg]
       -- nothing further out can have `limit` as a prefix
       symm
